@@ -21,6 +21,8 @@ fn main() {
     let t0 = std::time::Instant::now();
     match engine.as_str() {
         "plan" => engines::plan::run(&args, &mut rep),
+        #[cfg(feature = "parallel")]
+        "parseq" => engines::parseq::run(&args, &mut rep),
         _ => {
             eprintln!("unknown engine {:?}", engine);
             std::process::exit(2);
